@@ -74,6 +74,87 @@ Section Woodbury.
   Proof. rewrite accuracy_is_system_residual, direct_solves. reflexivity. Qed.
 End Woodbury.
 
+(** MatrixATADSolver.__init__ / solve: which factorisation is stored and how it is used.
+      if cho_factor:  c, lower = jsl.cho_factor(G, lower=lower, ...);  self.factor = (c, lower)
+      else:           lu, piv  = jsl.lu_factor(G, ...);                 self.factor = (lu, piv)
+      fact_solve = cho_solve(self.factor, .)  /  lu_solve(self.factor, .)
+    jax's cho_factor fills only the requested triangle (the other one is zeroed) and cho_solve
+    reads the triangle named by the flag stored WITH the factor: the library contract
+    ([cho_contract], Section hypothesis) only speaks about solving with the flag the factor
+    was computed with.  The model keeps the flag in the stored factor, so the theorem holds
+    for every value of the constructor flags (cho_factor, lower); storing a different flag
+    than the one passed to cho_factor is outside the contract. *)
+Section ATADConstructor.
+  Variables Z F : Type.
+  Variable G : Z -> Z.                         (* the matrix that is factorised *)
+  Variable cho_fac : bool -> F.                (* jsl.cho_factor(G, lower=flag)[0] *)
+  Variable cho_solve : F -> bool -> Z -> Z.    (* jsl.cho_solve((c, flag), y) *)
+  Variable lu_fac : F.                         (* jsl.lu_factor(G) *)
+  Variable lu_solve : F -> Z -> Z.
+  Hypothesis cho_contract : forall lower y, G (cho_solve (cho_fac lower) lower y) = y.
+  Hypothesis lu_contract : forall y, G (lu_solve lu_fac y) = y.
+
+  Inductive factor := FCho (c : F) (lower : bool) | FLU (lu : F).
+
+  (** __init__(..., cho_factor, lower, check_finite) -- check_finite only validates input *)
+  Definition atad_init (cho lower : bool) : factor :=
+    if cho then FCho (cho_fac lower) lower else FLU lu_fac.
+
+  Definition fact_solve (f : factor) (y : Z) : Z :=
+    match f with FCho c lower => cho_solve c lower y | FLU lu => lu_solve lu y end.
+
+  Theorem fact_solve_inverts cho lower y : G (fact_solve (atad_init cho lower) y) = y.
+  Proof. destruct cho; cbn; [apply cho_contract | apply lu_contract]. Qed.
+End ATADConstructor.
+
+(** both paths of MatrixATADSolver.solve for every value of the constructor flags *)
+Section ATADAllFlags.
+  Variables X Y F : Type.
+  Variables (xadd xsub : X -> X -> X) (yadd ysub : Y -> Y -> Y).
+  Hypothesis y_add_sub : forall a t, ysub (yadd a t) t = a.
+  Hypothesis x_add_sub2 : forall a b, xadd a (xsub b a) = b.
+  Variable A : X -> Y.
+  Variable AH : Y -> X.
+  Variables W Winv : Y -> Y.
+  Variables D Dinv : X -> X.
+  Hypothesis A_sub : forall u v, A (xsub u v) = ysub (A u) (A v).
+  Hypothesis Dinv_sub : forall u v, Dinv (xsub u v) = xsub (Dinv u) (Dinv v).
+  Hypothesis D_Dinv : forall u, D (Dinv u) = u.
+  Hypothesis W_Winv : forall u, W (Winv u) = u.
+  (** factorisation primitives for the Woodbury matrix (on Y) and the direct matrix (on X) *)
+  Variable cho_fac_w : bool -> F.
+  Variable cho_solve_w : F -> bool -> Y -> Y.
+  Variable lu_fac_w : F.
+  Variable lu_solve_w : F -> Y -> Y.
+  Hypothesis cho_contract_w : forall lower y,
+    Gw X Y yadd A AH Winv Dinv (cho_solve_w (cho_fac_w lower) lower y) = y.
+  Hypothesis lu_contract_w : forall y, Gw X Y yadd A AH Winv Dinv (lu_solve_w lu_fac_w y) = y.
+  Variable cho_fac_d : bool -> F.
+  Variable cho_solve_d : F -> bool -> X -> X.
+  Variable lu_fac_d : F.
+  Variable lu_solve_d : F -> X -> X.
+  Hypothesis cho_contract_d : forall lower b,
+    sysop X Y xadd A AH W D (cho_solve_d (cho_fac_d lower) lower b) = b.
+  Hypothesis lu_contract_d : forall b, sysop X Y xadd A AH W D (lu_solve_d lu_fac_d b) = b.
+
+  Theorem atad_woodbury_all_flags (cho lower : bool) (b : X) :
+    sysop X Y xadd A AH W D
+      (solve_woodbury X Y xsub A AH Dinv
+         (fact_solve Y F cho_solve_w lu_solve_w (atad_init F cho_fac_w lu_fac_w cho lower)) b) = b.
+  Proof.
+    apply (woodbury_solves X Y xadd xsub yadd ysub y_add_sub x_add_sub2 A AH W Winv D Dinv
+             A_sub Dinv_sub D_Dinv W_Winv).
+    intros y. apply (fact_solve_inverts Y F (Gw X Y yadd A AH Winv Dinv)); auto.
+  Qed.
+
+  Theorem atad_direct_all_flags (cho lower : bool) (b : X) :
+    sysop X Y xadd A AH W D
+      (solve_direct X (fact_solve X F cho_solve_d lu_solve_d (atad_init F cho_fac_d lu_fac_d cho lower)) b) = b.
+  Proof.
+    unfold solve_direct. apply (fact_solve_inverts X F (sysop X Y xadd A AH W D)); auto.
+  Qed.
+End ATADAllFlags.
+
 (** ConvATADSolver: in the DFT domain (Ahat, Dhat diagonal per frequency) the code computes
       AHEinv = conj(Ahat) / (1 + sum(Ahat conj(Ahat) / Dhat))
       xhat   = (bhat - AHEinv * sum(Ahat * bhat / Dhat)) / Dhat
